@@ -200,11 +200,13 @@ impl Target<i32, f64> for Pmf {
 struct Walk {
     p_up: f64,
     rng: SmallRng,
+    last_up: bool,
 }
 impl Proposal<i32, f64> for Walk {
     fn sample(&mut self, c: &[i32]) -> Vec<i32> {
         let u: f64 = self.rng.random();
-        vec![if u < self.p_up { c[0] + 1 } else { c[0] - 1 }]
+        self.last_up = u < self.p_up;
+        vec![if self.last_up { c[0] + 1 } else { c[0] - 1 }]
     }
     fn logp(&self, from: &[i32], to: &[i32]) -> f64 {
         if to[0] == from[0] + 1 {
@@ -372,7 +374,15 @@ impl Scenario for EndToEnd {
                         pmf.iter().rposition(|q| *q > 0.0).unwrap() as i32
                     };
                     let starts: Vec<Vec<i32>> = (0..kk).map(|_| vec![draw(&mut g)]).collect();
-                    let mut s = MetropolisHastings::new(target, Walk { p_up, rng: SmallRng::seed_from_u64(1) }, starts).seed(seed);
+                    // boundary seeds too: seeds whose derived chain seeds are 0, 2^62, 2^63, ... (a proposal that
+                    // consumes one generator word per step shows any coupling with the acceptance stream at once)
+                    let seed = match seed % 4 {
+                        0 => u64::MAX - (seed >> 8) % 3,
+                        1 => (1u64 << 63) - 1 - (seed >> 8) % 3,
+                        2 => (1u64 << 62) - 1,
+                        _ => seed,
+                    };
+                    let mut s = MetropolisHastings::new(target, Walk { p_up, rng: SmallRng::seed_from_u64(1), last_up: false }, starts).seed(seed);
                     let ex: f64 = pmf.iter().enumerate().map(|(i, q)| i as f64 * q).sum();
                     let ex2: f64 = pmf.iter().enumerate().map(|(i, q)| (i * i) as f64 * q).sum();
                     // a tail cell: smallest q with P(X >= q) <= 0.1 (and > 0)
@@ -389,17 +399,27 @@ impl Scenario for EndToEnd {
                     let cells: Vec<usize> = (0..pmf.len()).filter(|i| pmf[*i] > 0.03).take(6).collect();
                     let (mut f1, mut f2, mut ft) = (vec![], vec![], vec![]);
                     let mut fc: Vec<Vec<f64>> = vec![vec![]; cells.len()];
-                    for c in s.chains.iter_mut() {
+                    let mut worst_pair = (0.0f64, 0usize);
+                    for (ci, c) in s.chains.iter_mut().enumerate() {
                         let (mut a1, mut a2, mut at) = (0.0, 0.0, 0.0);
                         let mut ac = vec![0.0; cells.len()];
+                        let (mut us, mut ups) = (vec![], vec![]);
                         for _ in 0..t_len {
+                            us.push(c.rng.clone().random::<f64>());
                             let x = c.step()[0];
+                            ups.push(c.proposal.last_up as u8 as f64);
                             a1 += x as f64;
                             a2 += (x as f64).powi(2);
                             at += (x as usize >= tail) as u8 as f64;
                             for (j, cell) in cells.iter().enumerate() {
                                 ac[j] += (x as usize == *cell) as u8 as f64;
                             }
+                        }
+                        // within every single chain: the acceptance uniform must be independent of the
+                        // direction the proposal took in the same step
+                        let zc = corr(&us, &ups) * (t_len as f64).sqrt();
+                        if zc.abs() > worst_pair.0 {
+                            worst_pair = (zc.abs(), ci);
                         }
                         let n = t_len as f64;
                         f1.push(a1 / n);
@@ -410,6 +430,10 @@ impl Scenario for EndToEnd {
                         }
                     }
                     st.o.work = (kk * t_len) as u64;
+                    st.n_stats += kk as u64;
+                    if worst_pair.0 > 8.0 {
+                        st.o.violate("draws_dependent", &format!("{}:dependence:acceptance-uniform-vs-proposal-direction", st.site), format!("{}: in chain {} (sampler seed {seed}) the acceptance uniform and the direction proposed in the same step are correlated: z = {:.1} over {t_len} steps", st.site, worst_pair.1, worst_pair.0));
+                    }
                     st.z("k", &f1, ex);
                     st.z("k^2", &f2, ex2);
                     if ptail > 0.0 {
